@@ -82,10 +82,16 @@ def ker_expanded(a0, a1, order, nf, gamma3=None):
     return (a1 / a0) ** c0 * J(a1) / J(a0)
 
 
-def mass_factor(direction_up, nl, a_upper, L, order):
-    """Factor multiplying the *linear* mass when crossing the wall between nl and nl+1 flavours."""
+def mass_factor(direction_up, nl, a_upper, L, order, up_override=None):
+    """Factor multiplying the *linear* mass when crossing the wall between nl and nl+1 flavours.
+
+    up_override = {(n, k): value} replaces single entries of the published table (used only by the model of the
+    *documented defects*, which has to reproduce the 6 printed digits of the code's three-loop constants)."""
     mp.mp.dps = DPS
-    up = dec.mass_up_published(nl)
+    up = dict(dec.mass_up_published(nl))
+    if up_override:
+        for key, v in up_override.items():
+            up[key] = mp.mpf(v)
     a_upper, L = mp.mpf(a_upper), mp.mpf(L)
     z = mp.mpf(1)
     for (n, k), v in up.items():
@@ -112,11 +118,13 @@ def mass_factor(direction_up, nl, a_upper, L, order):
     return 1 / z, zt
 
 
-def walk(m2_ref, origin, target, walls, ratios, a_of, order, method, gamma3_of=None, factor_power=2):
+def walk(m2_ref, origin, target, walls, ratios, a_of, order, method, gamma3_of=None, factor_power=2, up_override_of=None):
     """Evolve m^2 from origin=(mu2, nf) to target=(mu2, nf).
 
     walls  = matching scales k_j m_j^2 (c, b, t); ratios = k_j; a_of(mu2, nf) = coupling a_s^(nf)(mu2).
     factor_power=2 is the specification (m^2 changes by zeta^2); 1 is a diagnostic hypothesis only.
+    The two recorded defects of msbar_masses.evolve are modelled by the caller with factor_power=1 and
+    walls = k_j^2 xif2 m_j^2 (L stays ln k_j); up_override_of(nl) -> {(n, k): value} (see mass_factor).
     Returns (m2 with squared exact decoupling factors, m2 with squared truncated-series factors, n_crossings).
     """
     mp.mp.dps = DPS
@@ -136,7 +144,7 @@ def walk(m2_ref, origin, target, walls, ratios, a_of, order, method, gamma3_of=N
             _, scale, hq, inverse = st
             nl = hq - 1
             L = math.log(ratios[hq - 4])
-            za, zb = mass_factor(not inverse, nl, a_of(scale, nl + 1), L, order)
+            za, zb = mass_factor(not inverse, nl, a_of(scale, nl + 1), L, order, None if up_override_of is None else up_override_of(nl))
             lo *= za**factor_power
             hi *= zb**factor_power
             ncross += 1
